@@ -133,6 +133,16 @@ CHECKS["C08"] = ("model_checking",
     "computations) are judged by TLC.",
     "Trusted: TLC, the channel plumbing of vlib/props/C08.py and vlib/simrt.py. NCBB is not exercised (its pinned tests fail in this environment; it uses the same mixin).",
     "DESIGN.md section 4 C08")
+
+CHECKS["C20"] = ("model_checking",
+    "TLC-enumerated histories of discovery operations and single deliveries (Gen_C20 over Discovery.tla), executed on real Agent/Discovery/Directory objects with imposed delivery orders, convergence judged by TLC (Judge_C20)",
+    "Discovery.tla specifies, from the operations alone, who hosts what and who is subscribed to what; TLC enumerates every history of at most 3 (quick) / 4 operations "
+    "(register / unregister, subscribe without / with / one-shot callback, unsubscribe, publish / unpublish replica, subscribe / unsubscribe replicas; 2 agents, 2 "
+    "computations) interleaved with single-message deliveries on the four agent<->directory channels, and simulates histories of 10; each is executed on real agents (threads "
+    "not started, inter-agent messages held in per-pair FIFO channels, seeded drain order); at each drain point TLC checks that every subscribed computation / replica "
+    "view equals the directory's table, that no discovery handler raised and that each change of a callback-subscribed item fired a callback.",
+    "Trusted: TLC, vlib/agentrt.py, the channel interception in vlib/props/C20.py. Agent (un)registration and agent subscriptions are exercised through C27 only. The "
+    "specification is at the level of the API and of the convergence statement; the message handlers themselves are not modelled step by step.", "DESIGN.md section 4 C20")
 NOT_YET = "check not built yet in this snapshot (work in progress, see DESIGN.md section 9)"
 
 fix_commits = subprocess.run(["git", "-C", "/repo", "log", "--format=%h %s", "aeaae91..HEAD"], capture_output=True, text=True).stdout.splitlines()
